@@ -30,7 +30,7 @@
         observes both relative orders), and that std never re-initialises a destroyed
         thread-local on this platform.
 
-    No axioms, no admits. *)
+    Everything below is closed under the global context (Print Assumptions is run by the checker). *)
 From Coq Require Import List Arith PeanoNat Bool Lia.
 Import ListNotations.
 
@@ -356,13 +356,13 @@ Lemma drain_spec fuel s :
   wf s' /\ buffer s' = [] /\ pc_alive s' = pc_alive s /\ rc s' = rc s /\ freed s' = freed s.
 Proof.
   revert s. induction fuel as [|f IH]; intros s Hwf Hlen; cbn.
-  - destruct (buffer s) eqn:Hb; cbn in Hlen; [|lia]. repeat split; auto.
-  - destruct (buffer s) as [|o r] eqn:Hb; [repeat split; auto|].
+  - destruct (buffer s) eqn:Hb; cbn in Hlen; [|lia]. split; [assumption | repeat split; auto].
+  - destruct (buffer s) as [|o r] eqn:Hb; [split; [assumption | repeat split; auto]|].
     assert (wf (remove_first s)) as Hwf' by now apply remove_first_wf.
     assert (length (buffer (remove_first s)) <= f) as Hlen'.
     { unfold remove_first. rewrite Hb. cbn. cbn in Hlen. lia. }
     destruct (IH _ Hwf' Hlen') as (H1 & H2 & H3 & H4 & H5).
-    repeat split; auto.
+    split; [assumption|]. repeat split; auto.
     + rewrite H3. unfold remove_first. now rewrite Hb.
     + rewrite H4. unfold remove_first. now rewrite Hb.
     + rewrite H5. unfold remove_first. now rewrite Hb.
@@ -383,7 +383,8 @@ Proof.
   destruct H1 as [Hnd Hm Hl Hf Hd].
   assert (forall o, marks d o = false) as Hnm.
   { intros o. apply not_true_is_false. intros Ht. apply Hm in Ht. rewrite H2 in Ht. contradiction. }
-  repeat split; cbn; auto.
+  split; [split; [constructor; cbn; auto | reflexivity]|].
+  cbn. repeat split; auto.
 Qed.
 
 (** *** Operations once POSSIBLE_CYCLES is gone *)
@@ -433,20 +434,20 @@ Proof.
   intros Hwf. pose proof Hwf as [Hnd Hm Hl Hf Hd]. unfold remove_from_list.
   destruct (marks s o) eqn:Hmo.
   - destruct (pc_alive s) eqn:Hpa.
-    + cbn. repeat split; auto.
-      * now apply remove_id_NoDup.
-      * destruct (Nat.eq_dec o0 o) as [->|Hne].
-        -- rewrite set_fn_same. discriminate.
-        -- rewrite set_fn_other by assumption. intros H. apply remove_id_In. split; [now apply Hm | assumption].
-      * intros H. apply remove_id_In in H as [H Hne]. rewrite set_fn_other by assumption. now apply Hm.
-      * apply remove_id_In in H as [H _]. now apply Hl.
-      * apply remove_id_In in H as [H _]. now apply Hl.
-      * discriminate.
+    + cbn. split; [|split; [|split; [|repeat split]]].
+      * constructor; cbn.
+        -- now apply remove_id_NoDup.
+        -- intros x. rewrite remove_id_In. destruct (Nat.eq_dec x o) as [->|Hne].
+           ++ rewrite set_fn_same. split; [discriminate | tauto].
+           ++ rewrite set_fn_other by assumption. rewrite Hm. tauto.
+        -- intros x Hx. apply remove_id_In in Hx as [Hx _]. now apply Hl.
+        -- assumption.
+        -- discriminate.
       * apply not_true_is_false. intros H. apply mem_In, remove_id_In in H as [_ H]. congruence.
       * apply set_fn_same.
     + (* marked while the thread-local is gone: excluded by wf *)
       exfalso. apply Hm in Hmo. rewrite (Hd eq_refl) in Hmo. contradiction.
-  - repeat split; auto.
+  - split; [assumption|]. split; [|repeat split; assumption].
     apply not_true_is_false. intros H. apply mem_In, Hm in H. congruence.
 Qed.
 
@@ -469,18 +470,16 @@ Proof.
     destruct Hwf1 as [Hnd1 Hm1 Hl1 Hf1 Hd1].
     assert (~ In o (buffer s1)) as Hnin.
     { intros H. apply mem_In in H. congruence. }
-    repeat split; cbn; auto.
-    + destruct (Nat.eq_dec o0 o) as [->|Hne]; [contradiction|].
-      rewrite set_fn_other by assumption. now apply Hl1.
-    + destruct (Nat.eq_dec o0 o) as [->|Hne]; [contradiction|].
-      rewrite set_fn_other by assumption. now apply Hl1.
-    + intros x. destruct (Nat.eq_dec x o) as [->|Hne].
-      * now rewrite !set_fn_same.
-      * rewrite !set_fn_other by assumption. apply Hf1.
-    + rewrite set_fn_other by assumption. now rewrite Hrc1.
-    + rewrite set_fn_other by assumption. now rewrite Hfr1.
+    split; [|split; [assumption|split; [|split]]].
+    + constructor; cbn; auto.
+      * intros x Hx. destruct (Nat.eq_dec x o) as [->|Hne]; [contradiction|].
+        rewrite !set_fn_other by assumption. now apply Hl1.
+      * intros x. destruct (Nat.eq_dec x o) as [->|Hne].
+        -- now rewrite !set_fn_same.
+        -- rewrite !set_fn_other by assumption. apply Hf1.
+    + intros x Hne. rewrite !set_fn_other by assumption. now rewrite Hrc1, Hfr1.
     + now rewrite set_fn_same.
-    + now rewrite set_fn_same.
+    + intros _. rewrite set_fn_same. auto.
   - (* other handles remain: decrement and (try to) buffer *)
     set (s0 := {| pc_alive := pc_alive s; buffer := buffer s; marks := marks s;
                   rc := set_fn (rc s) o (S n); freed := freed s |}).
@@ -521,7 +520,7 @@ Proof.
       destruct (Nat.eq_dec o x) as [<-|Hne].
       - rewrite Hown. lia.
       - destruct (Hoth x) as [Hx _]; [congruence|]. rewrite Hx. exact Hcnt. }
-    exists s'. repeat split; auto. congruence.
+    exists s'. split; [assumption|]. split; [assumption | congruence].
 Qed.
 
 (** *** C19 teardown, both orders *)
